@@ -1086,6 +1086,15 @@ def equivalence_pairs(tier, sd):
     for nm_, da_, db_ in [p_ for p_ in pairs if p_[0].split(":")[1] in ("cross-2x2", "atmost1-uncrossed", "cross-2+uncrossed", "min-4-of-2", "exactlyk2-uncrossed")
                           and p_[0].split(":")[0] in ("merge_single_id", "repeat_empty_id")]:
         pairs.append((nm_ + "@after-combinators", da_, db_))
+    # two MinimumTrials objects meet in one block — one on the inner block, one given to the combinator — in both orders of magnitude
+    # (Repeat lists the block's constraints first, Merge lists them last: the result must not depend on that order)
+    c2m, d2m = DS.fac("c", DS.A2), DS.fac("d", ["x", "y"])
+    for inner_n, outer_n in ((6, 4), (4, 6), (4, 4), (3, 5)):
+        for facs, design, crossing in (([c2m], ["c"], ["c"]),):
+            inner = DS.cross(design, crossing, [["MinimumTrials", inner_n]])
+            a_ = DS.D(f"repeat-min{inner_n}-inner-min{outer_n}-outer-{len(design)}f", facs, DS.repeat(inner, [["MinimumTrials", outer_n]]), ["mintrials"])
+            b_ = DS.D(a_["name"], facs, DS.merge([inner], [["MinimumTrials", outer_n]], mode="repeat", alignment="equal preamble"), ["mintrials"])
+            pairs.append((f"repeat_eq_merge:{a_['name']}", a_, b_))
     # multi-crossing designs with every mode and alignment
     c2, d2, f3 = DS.fac("c", DS.A2), DS.fac("d", ["x", "y"]), DS.fac("f", ["p", "q", "s"])
     tr = DS.transition_rep("t", "c", DS.A2)
